@@ -211,8 +211,8 @@ func genFuzz(g *genCtx) {
 				}
 				// long tails: thousands of (mostly empty) parameters under distinct tags - work and memory stay proportional
 				if it == 0 {
-					for _, cnt := range []int{600, 4000, 16000} {
-						// (judging a tail of n parameters costs TLC n^2: the longest ones only where both parsers differ, and in the thorough tier)
+					for _, cnt := range []int{600, 4000} {
+						// (judging a tail of n parameters costs TLC n^2 and a recursion n deep: 4,000 is what it takes)
 						if cnt > 600 && tn[:6] != "smgp30" || cnt > 4000 && !g.thorough() {
 							continue
 						}
